@@ -82,6 +82,7 @@ func (rc repoClock) Advance(d time.Duration) int { rc.MoveForward(d); return 0 }
 type c20In struct {
 	deadline time.Time
 	name     enc.Name
+	zero     bool // explicit InterestLifetime of 0: a reply at the very instant of arrival is left open
 }
 
 func (cr *c20Run) fail(key, what string, extra map[string]any) {
@@ -333,7 +334,8 @@ func c20History(c *h.Ctx, id string, r *rand.Rand) {
 			if r.Intn(2) == 0 {
 				nm = u.Extend(r, nm, 2)
 			}
-			lifeMs := []int{0, 100, 1000}[r.Intn(3)]
+			// 0 = no InterestLifetime element (default 4 s); -1 = an explicit InterestLifetime of 0 ms
+			lifeMs := []int{0, 100, 1000, -1}[r.Intn(4)]
 			ev := &c20Event{Ev: "incoming-interest", Name: nm.String(), LifeMs: lifeMs}
 			cr.hist = append(cr.hist, ev)
 			cr.stepIncoming(nm, lifeMs, ev)
@@ -536,6 +538,9 @@ func (cr *c20Run) stepIncoming(nm enc.Name, lifeMs int, ev *c20Event) {
 	body := append(nm.Bytes(), tlvwalk.TLV(0x0a, []byte{0, 0, 0, 7})...)
 	if lifeMs > 0 {
 		body = append(body, tlvwalk.TLV(0x0c, natBytes(uint64(lifeMs)))...)
+	} else if lifeMs < 0 {
+		body = append(body, tlvwalk.TLV(0x0c, []byte{0})...)
+		cr.c.Count("incoming_interests_lifetime_zero", 1)
 	}
 	in := tlvwalk.TLV(5, body)
 	if cr.r.Intn(3) == 0 { // the Interest arrives inside a link-protocol packet with a PIT token, as a forwarder sends it
@@ -570,9 +575,11 @@ func (cr *c20Run) stepIncoming(nm enc.Name, lifeMs int, ev *c20Event) {
 	life := 4 * time.Second
 	if lifeMs > 0 {
 		life = time.Duration(lifeMs) * time.Millisecond
+	} else if lifeMs < 0 {
+		life = 0
 	}
 	for i := before; i < len(cr.incoming); i++ {
-		cr.inMeta = append(cr.inMeta, c20In{deadline: cr.tm.Now().Add(life), name: nm.Clone()})
+		cr.inMeta = append(cr.inMeta, c20In{deadline: cr.tm.Now().Add(life), name: nm.Clone(), zero: lifeMs < 0})
 	}
 	cr.c.Distinct(fmt.Sprintf("incoming|handler=%v|depth=%d", want != "", len(nm)))
 	cr.c.Count("incoming_interests", 1)
@@ -596,6 +603,8 @@ func (cr *c20Run) stepReply(i int, ev *c20Event) {
 			cr.fail("C20:reply-after-deadline", fmt.Sprintf("a reply to Interest %s was transmitted %v after its deadline", meta.name, now.Sub(meta.deadline)), nil)
 			return
 		}
+	} else if meta.zero && now.Equal(meta.deadline) {
+		// don't-care
 	} else if len(sent) != 1 {
 		cr.fail("C20:reply-not-sent", fmt.Sprintf("a reply to Interest %s before its deadline transmitted %d packets (err=%v)", meta.name, len(sent), err), nil)
 		return
